@@ -934,7 +934,13 @@ def _pb_tail(c, f, ex, p, after, outs, tb, T, cur, rem, pcur, remphi, bnphi, BN,
     # last partial block
     r = remc
     okseq = [e[2] for e in after if e[2] != "tinyjambu_hmac_free"] == ["tinyjambu_clean", "tinyjambu_clean"]
-    c("BLOCKS", p.end[0] == "ret" and okseq, "last-block-ends(%s)%s" % (r, "-chain" if from_chain else ""), "after the partial block: wipe T, leave the loop, wipe U, return",
+    okend = p.end[0] == "ret" and okseq
+    if p.end[0] == "backedge":
+        # the partial block may also go round the loop once more with nothing left (the loop is then left - and the temporaries
+        # wiped - by the iteration that finds remaining == 0, the 'done' class)
+        br_ = p.env.get(("back", remphi.id))
+        okend = br_ is not None and not is_word(br_) and ex.subst(p, br_).const() == 0 and not [e for e in after if e[2] != "tinyjambu_hmac_free"]
+    c("BLOCKS", okend, "last-block-ends(%s)%s" % (r, "-chain" if from_chain else ""), "after the partial block: wipe T, leave the loop, wipe U, return (or: continue with nothing remaining)",
       "after the partial block: events %s, end %s" % ([e[2] for e in after], p.end[0]))
     wr = sorted(k[1] for k in outs if k[0] == cur)
     c("BLOCKS", wr == list(range(r)), "last-block-range(%s)%s" % (r, "-chain" if from_chain else ""), "exactly the %d requested bytes are written" % r,
